@@ -34,4 +34,61 @@ PROPS = {
             rapid_stage("build-vectors", "TestC01", 150, 1000, tags="verif,vectors", tshards=4),
         ],
     },
+    "C02": {
+        "level": "exploration",
+        "rule": "rapid-generated batches (stored values: repeated field names, empty values, values > 64 KiB, array positions up to 40, arbitrary type bytes, one duplicated id in ~12 % of batches) built in memory or persisted+opened, plus generated id lists (present, absent below/above every key, max key, max key + 1 byte, empty string, duplicates); for every document every early-stop point of the visitor; non-trivial = a document with >= 2 stored values of one field, or an id list mixing present and absent ids on a batch of >= 2 documents",
+        "assumptions": COMMON_ASSUME,
+        "technique": "property-based testing (rapid): stored-field / DocID / DocNumbers round trip vs. reference model, all early-stop points enumerated per document",
+        "level_text": "Randomised exploration with shrinking against a reference model; early-stop points and beyond-Count numbers are enumerated for every generated document.",
+        "level_note": "Trusts the reference model and the stub documents; visitor arguments are copied inside the callback (C11 covers their stability).",
+        "stages": [rapid_stage("stored", "TestC02", 400, 2500)],
+    },
+    "C03": {
+        "level": "exploration",
+        "rule": "rapid-generated pairs of batches (same schema, >= 1 doc-value field) x doc-value chunk size (LegacyChunkMode in {1024,1,2,3,5,16} or uniform 1..1024, shared by writer and reader) x in-memory/mmap per segment x a visit script of 1..40 (segment, doc) steps sharing one DocVisitState and one field list (subset incl. unknown, non-dv and _id names); non-trivial = the script jumps backwards across a chunk boundary or switches segments with a reused state, and the first batch has doc-value content",
+        "assumptions": COMMON_ASSUME + ["the doc-value chunk size is a process-global not recorded in the file; writer and reader share it, as in bleve"],
+        "technique": "property-based testing (rapid): generated visit scripts with shared visit state vs. reference model",
+        "level_text": "Randomised exploration with shrinking of batches, chunk sizes and visiting orders; every callback multiset is compared with the model's term set.",
+        "level_note": "Trusts the reference model; LegacyChunkMode is mutated only inside the single-goroutine check and restored.",
+        "stages": [rapid_stage("docvalues", "TestC03", 300, 2000)],
+    },
+    "C04": {
+        "level": "exploration",
+        "rule": "rapid-generated batches (text, stored, doc values, thesauri; vector fields under the vectors tag) x chunk mode x doc-value chunk size; each is built, written with Persist and WriteTo, re-opened, and the complete observations (terms, postings, locations, stored, doc values, thesauri, vector searches) of the in-memory and the opened segment are compared with each other and the model, plus bytes/footer/CRC/size invariants; non-trivial = non-empty batch with doc values or a thesaurus",
+        "assumptions": COMMON_ASSUME,
+        "technique": "property-based testing (rapid): round trip / differential in-memory vs. mmap-opened vs. reference model, byte equality Persist vs. WriteTo, footer/CRC invariant",
+        "level_text": "Randomised exploration with shrinking; the comparison covers the complete query surface of each generated segment, not sampled terms.",
+        "level_note": "Trusts the reference model; the vectors-tag stage runs against the fake vector engine.",
+        "stages": [
+            rapid_stage("persist", "TestC04", 300, 2000),
+            rapid_stage("persist-vectors", "TestC04", 150, 800, tags="verif,vectors", tshards=4),
+        ],
+    },
+    "C05": {
+        "level": "exploration",
+        "rule": "rapid-generated merge plans: trees of depth 1..3 with 1..4 children per merge; leaves are 0..8-document batches built in memory or persisted+opened; per-child deletion bitmaps from {nil, empty, single, all-but-one, full, random}; 50 % of plans are made uniform (every document carries every field, so all field lists are identical and the byte-copy paths run); every inner node is checked (doc-number maps, reported size, Count, Fields, stored values, DocID, DocNumbers, early-stop visits); non-trivial = some merge has >= 2 inputs or >= 1 deletion",
+        "assumptions": COMMON_ASSUME + ["when nothing survives the merged segment must be a valid empty segment; Fields may be empty or the union of the inputs' fields (both readings accepted)"],
+        "technique": "property-based testing (rapid): generated merge-plan trees executed by the real code vs. reference model of the survivors",
+        "level_text": "Randomised exploration with shrinking over merge histories (built / opened / merged inputs, all deletion-bitmap shapes); every intermediate merge output is re-opened and compared with the model.",
+        "level_note": "Trusts the reference model (merge = batch of surviving documents in segment order).",
+        "stages": [rapid_stage("merge-stored", "TestC05", 250, 1500)],
+    },
+    "C06": {
+        "level": "exploration",
+        "rule": "the C05 plan generator with indexed content, doc values forced on >= 1 field, a random chunk mode for every build and merge, and an optional wide leaf (> 1024 documents); every inner node's full postings (frequencies, norms, locations with source-field names) and doc values are compared with the model of the survivors, and every term whose documents were all deleted must be absent; non-trivial = a plan with >= 1 deletion and a term occurring in >= 2 inputs of one merge",
+        "assumptions": COMMON_ASSUME + ["the list of visitable doc-value fields of a merged segment must contain every field with surviving doc values and only fields some input indexed with doc values"],
+        "technique": "property-based testing (rapid): generated merge-plan trees x chunk modes vs. reference model (postings, locations, doc values)",
+        "level_text": "Randomised exploration with shrinking over merge chains; 1-hit dictionary entries and byte-copied posting details are merged again by construction (depth up to 3).",
+        "level_note": "Trusts the reference model.",
+        "stages": [rapid_stage("merge-index", "TestC06", 250, 1500)],
+    },
+    "C13": {
+        "level": "exploration",
+        "rule": "the C05 plan generator over schemas that always contain 1..3 thesauri (about a third of the documents are synonym documents drawn from a small shared synonym vocabulary, so inputs assign different internal ids to the same synonym); every inner node's thesauri (terms in order, (synonym, document) pairs) are compared with the model of the survivors; non-trivial = a merge with >= 2 inputs sharing a synonym string and >= 1 deletion in the plan",
+        "assumptions": COMMON_ASSUME + ["synonym terms and synonyms are non-empty and every left-hand term has >= 1 synonym"],
+        "technique": "property-based testing (rapid): generated merge-plan trees with synonym documents vs. reference model",
+        "level_text": "Randomised exploration with shrinking over merge chains of segments with thesauri.",
+        "level_note": "Trusts the reference model.",
+        "stages": [rapid_stage("merge-thesaurus", "TestC13", 250, 1500)],
+    },
 }
